@@ -231,6 +231,64 @@ two-importers (3 4 4)
 """
 
 
+# Scenario 2: exported macros of every transformer kind that (a) refer to private definitions of their library and (b) wrap
+# user code; the user imports *other* bindings under the same names as those private definitions, by every import route.
+LIB_M = """(define-library (t m)
+  (export wrap-sr wrap-er wrap-sc wrap-sc-free wrap-rsc aif-sc)
+  (import (scheme base) (chibi))
+  (begin
+    (define (probe x) (list 'PRIVATE-probe x))
+    (define limit 'PRIVATE-limit)
+    (define-syntax wrap-sr (syntax-rules () ((_ e) (list (probe 0) limit e))))
+    (define-syntax wrap-er (er-macro-transformer (lambda (f r c) (list (r 'list) (list (r 'probe) 0) (r 'limit) (cadr f)))))
+    (define-syntax wrap-sc (sc-macro-transformer (lambda (f env) (list 'list '(probe 0) 'limit (make-syntactic-closure env '() (cadr f))))))
+    (define-syntax wrap-sc-free (sc-macro-transformer (lambda (f env) (list 'let '((it 7)) (list 'list '(probe 0) 'limit (make-syntactic-closure env '(it) (cadr f)))))))
+    (define-syntax wrap-rsc (rsc-macro-transformer (lambda (f env) (let ((r (lambda (x) (make-syntactic-closure env '() x)))) (list (r 'list) (list (r 'probe) 0) (r 'limit) (cadr f))))))
+    (define-syntax aif-sc (sc-macro-transformer (lambda (f env) (list 'let (list (list 'it (make-syntactic-closure env '() (cadr f)))) (list 'if 'it (make-syntactic-closure env '(it) (car (cddr f))) (list 'probe 'limit))))))))
+"""
+LIB_U = """(define-library (t u)
+  (export (rename u-probe check) limit probe2)
+  (import (scheme base))
+  (begin
+    (define (u-probe x) (list 'user-probe x))
+    (define (probe2 x) (list 'user-probe2 x))
+    (define limit 'user-limit)))
+"""
+ROUTES = [("rename+prefix", "(rename (prefix (t u) t:) (t:check probe) (t:limit limit))"),
+          ("rename", "(rename (t u) (check probe))"),
+          ("only+rename", "(rename (only (t u) probe2 limit) (probe2 probe))"),
+          ("local-define", None)]
+MACROS = ["wrap-sr", "wrap-er", "wrap-sc", "wrap-sc-free", "wrap-rsc"]
+
+
+def scenario2():
+    """(program text, expected lines): one program per import route, one line per macro kind and nesting"""
+    progs = []
+    for rname, imp in ROUTES:
+        head = "(import (scheme base) (scheme write) (t m)%s)\n" % (" " + imp if imp else "")
+        if imp is None:
+            head += "(define (probe x) (list 'user-probe x))\n(define limit 'user-limit)\n"
+        up = "user-probe2" if rname == "only+rename" else "user-probe"
+        body, want = [], []
+        body.append("(write (list 'outside (probe 1) limit)) (newline)")
+        want.append("(outside (%s 1) user-limit)" % up)
+        for m in MACROS:
+            body.append("(write (list '%s (%s (list (probe 1) limit)))) (newline)" % (m, m))
+            want.append("(%s ((PRIVATE-probe 0) PRIVATE-limit ((%s 1) user-limit)))" % (m, up))
+            body.append("(write (list '%s-in-lambda ((lambda (q) (%s (list (probe q) limit))) 2))) (newline)" % (m, m))
+            want.append("(%s-in-lambda ((PRIVATE-probe 0) PRIVATE-limit ((%s 2) user-limit)))" % (m, up))
+            body.append("(write (list '%s-nested (%s (wrap-sr (probe 3))))) (newline)" % (m, m))
+            want.append("(%s-nested ((PRIVATE-probe 0) PRIVATE-limit ((PRIVATE-probe 0) PRIVATE-limit (%s 3))))" % (m, up))
+        body.append("(write (list 'free-it (wrap-sc-free (list it (probe it) limit)))) (newline)")
+        want.append("(free-it ((PRIVATE-probe 0) PRIVATE-limit (7 (%s 7) user-limit)))" % up)
+        body.append("(write (list 'aif (aif-sc (+ 1 1) (list it (probe it) limit) 'no) (aif-sc #f 'yes 'no))) (newline)")
+        want.append("(aif (2 (%s 2) user-limit) (PRIVATE-probe PRIVATE-limit))" % up)
+        body.append("(write (let ((probe (lambda (x) (list 'local-probe x))) (limit 'local-limit)) (list 'shadowed (wrap-sc-free (list it (probe it) limit)) (wrap-er (probe limit))))) (newline)")
+        want.append("(shadowed ((PRIVATE-probe 0) PRIVATE-limit (7 (local-probe 7) local-limit)) ((PRIVATE-probe 0) PRIVATE-limit (local-probe local-limit)))")
+        progs.append((rname, head + "\n".join(body) + "\n", want))
+    return progs
+
+
 def main(tier):
     chk = Check("C14", "model_checking", tier, quick_s=170, thorough_s=1500)
     chk.clean_replays()
@@ -285,6 +343,24 @@ def main(tier):
         if g != w:
             chk.violation({"op": "scenario", "line": k, "want": w, "got": g}, "library scenario line %d: got %r, expected %r" % (k, g, w), EXTRA)
             break
+    # scenario 2: macro kinds x import routes with names that collide with private definitions
+    common.write_file(os.path.join(libdir, "t", "m.sld"), LIB_M)
+    common.write_file(os.path.join(libdir, "t", "u.sld"), LIB_U)
+    for rname, text, want2 in scenario2():
+        p2 = os.path.join(d, "macro-%s.scm" % rname)
+        common.write_file(p2, text)
+        r = common.run_chibi("opt", ["-I", libdir, p2], timeout=120, cwd=d)
+        got2 = [l for l in r.out.split("\n") if l.strip() and not l.startswith("WARNING")]
+        chk.count(len(want2), outcome="scenario-line")
+        chk.nontrivial_n += len(want2)
+        for k in range(max(len(got2), len(want2))):
+            g = got2[k] if k < len(got2) else None
+            w = want2[k] if k < len(want2) else None
+            if g != w:
+                chk.violation({"op": "macro-scenario:" + rname, "line": k, "want": w, "got": g},
+                              "exported macros x import route %s, line %d: got %r, expected %r" % (rname, k, g, w),
+                              ";; libraries (t m), (t u):\n;; " + (LIB_M + LIB_U).replace("\n", "\n;; ") + "\n" + text)
+                break
     for expr, ids, path_ in allx[:: max(1, len(allx) // 6)][:6]:
         chk.sample({"import_set": expr, "model": ids})
     chk.cov["states"] = nstates
